@@ -66,6 +66,10 @@ mut("c02_client_drops_when_full", "C02", "internal/client/multiplexer.go", "\tch
 mut("c06_sendmsg_asks_for_reset", "C06", "internal/client/stream.go", "\tif err != nil {\n\t\tcs.teardown(false)\n\t\treturn err\n\t}\n\trpc := goatorepo.Rpc{", "\tif err != nil {\n\t\tcs.teardown(true)\n\t\treturn err\n\t}\n\trpc := goatorepo.Rpc{")
 mut("c06_reset_written_by_read_loop", "C06,C03", "server.go", "\tselect {\n\tcase h.writeChan <- reset:\n\t\treturn nil\n\tcase <-h.ctx.Done():\n\t\treturn context.Cause(h.ctx)\n\t}\n}", "\treturn h.rw.Write(h.ctx, reset)\n}")
 mut("c11_reset_sent_under_the_registry_lock", "C11", "server.go", "\t\tlog.Info().Msgf(\"did not expect body: calling RST stream %d\", rpc.Id)\n\t\tsendReset = true\n\t\treturn nil", "\t\tlog.Info().Msgf(\"did not expect body: calling RST stream %d\", rpc.Id)\n\t\treturn h.resetStream(rpc)")
+mut("c18_cancel_closes_data_queue", "C18", "demux.go", "\t\tclose(conn.done)\n", "\t\tclose(conn.done)\n\t\tclose(conn.r)\n")
+mut("c18_run_ignores_cancel", "C18", "demux.go", "\t\tcase <-conn.done:\n\t\t\t// cancelled while waiting for its reader\n", "")
+mut("c19_unregister_closes_delivery_queue", "C19", "http.go", "\t\tclose(conn.closed)\n", "\t\tclose(conn.closed)\n\t\tclose(conn.readCh)\n")
+mut("c19_chan_write_ignores_done", "C18", "channel.go", "\t\tcase <-done:\n\t\t\treturn fmt.Errorf(\"write channel closed\")\n", "")
 mut("c10_serve_no_drain", "C10", "server.go", "\th.cancelAndWaitForStreams()\n", "")
 
 only = sys.argv[1] if len(sys.argv) > 1 else ""
